@@ -30,8 +30,10 @@ func init() {
 // C03-child, which first allocates a pid-dependent amount of memory). Any two differing observables
 // (output bytes, or error class) are an oracle failure -- unless the case belongs to a stream
 // known:<class>, then it is reported as that known class provided the observed outputs are among those
-// the faithful model predicts for some iteration order (hash-duplicate-key, key-string-collision) or
-// are equal after masking hexadecimal numbers (toplevel-address, nested-pointer).
+// the faithful model predicts for some iteration order (merge-filter-key-collision) or are equal after
+// masking hexadecimal numbers and equal to the model's output with the address masked (nested-pointer).
+// The classes repaired in the engine (hash-duplicate-key, key-string-collision, toplevel-address) are
+// ordinary cases now (streams regress:<class>): one predicted output, any variation is an oracle failure.
 // Correspondence: the (single) observable against the model's prediction, when the model covers the case.
 // Dates: twig.VerifConvertDateFormat against the model for every format string, and {{ d|date(f) }} with a
 // fixed time against time.Format of the model's layout.
@@ -46,6 +48,12 @@ type c03Struct1 struct {
 	P *int
 }
 type c03Struct2 struct {
+	A int
+	B string
+}
+
+// c03Key is a struct used as a map key (type 9 and 10 of the case files)
+type c03Key struct {
 	A int
 	B string
 }
@@ -218,6 +226,37 @@ func c03Build(v map[string]interface{}, variant int, rng *rand.Rand) interface{}
 			return nil
 		}
 		switch int(v["ty"].(float64)) {
+		case 9, 10:
+			// a map keyed by structs (9) or by interface values of several kinds (10), from the int-keyed map in field M
+			inner, _ := get("M").(map[int]string)
+			ks := make([]int, 0, len(inner))
+			for k := range inner {
+				ks = append(ks, k)
+			}
+			sort.Ints(ks)
+			order := c03Order(len(ks), variant, rng)
+			if int(v["ty"].(float64)) == 9 {
+				m := make(map[c03Key]string, c03Cap(len(ks), variant))
+				for _, i := range order {
+					m[c03Key{A: ks[i], B: "k"}] = inner[ks[i]]
+				}
+				return m
+			}
+			m := make(map[interface{}]string, c03Cap(len(ks), variant))
+			for _, i := range order {
+				k := ks[i]
+				switch i % 4 {
+				case 0:
+					m[c03Key{A: k, B: "i"}] = inner[k]
+				case 1:
+					m[k] = inner[k]
+				case 2:
+					m[fmt.Sprintf("s%d", k)] = inner[k]
+				default:
+					m[c03Struct2{A: k, B: "t"}] = inner[k]
+				}
+			}
+			return m
 		case 1:
 			s := c03Struct1{}
 			s.N, _ = get("N").(string)
@@ -463,25 +502,31 @@ func runC03(cases string, res *Result) {
 			if firstObs != "err" {
 				res.add(Finding{Kind: "disagreement", Where: "render", Case: c, Expected: "err", Observed: hx(firstObs)})
 			}
-		case (known == "toplevel-address") && c["demanded"] != nil:
-			// stable: repaired; the value behind the pointer is printed, funcs and macro values print nothing
-			if want := "out:" + c.hexs("demanded"); firstObs != want {
-				if strings.Contains(c03Mask(firstObs), "0xADDR") {
-					// an address that happens to be the same in every render of this binary (the code address of a func value)
-					addKnown(Finding{Kind: "known", Known: known, Where: "render", Case: c, Expected: hx(want), Observed: firstObs,
-						Detail: "an address is printed; it is the same in every render of this executable and changes with the build"})
-				} else {
-					res.add(Finding{Kind: "disagreement", Where: "render", Case: c, Expected: hx(want), Observed: hx(firstObs), Detail: "stable output, but not the text of the value pointed to"})
-				}
-			}
-		case known == "hash-duplicate-key" || known == "key-string-collision":
-			// stable: repaired (any one of the model's alternatives, or the demanded output)
+		case c["alts"] != nil:
+			// one stable output where the model allows several: it must be one of them
 			if !c03InAlts(c, firstObs) {
 				res.add(Finding{Kind: "disagreement", Where: "render", Case: c, Expected: fmt.Sprint(c["alts"]), Observed: hx(firstObs), Detail: "stable output that no iteration order of the model produces"})
+			}
+		case known == "nested-pointer":
+			if strings.Contains(c03Mask(firstObs), "0xADDR") {
+				// an address that happens to be the same in every render of this process
+				addKnown(Finding{Kind: "known", Known: known, Where: "render", Case: c, Observed: firstObs,
+					Detail: "an address is printed; it happened to be the same in every render of this process"})
 			}
 		}
 	})
 	res.Hist["cases_with_map_of_3_or_more_entries"] = mapCases3
+	for _, cl := range []string{"hash-duplicate-key", "key-string-collision", "toplevel-address"} {
+		bad := 0
+		for _, f := range res.Findings {
+			if cm, ok := f.Case.(Case); ok && cm.str("stream") == "regress:"+cl {
+				bad++
+			}
+		}
+		if n := res.Hist["stream:regress:"+cl]; n > 0 && bad == 0 {
+			res.Notes = append(res.Notes, fmt.Sprintf("class %s: no longer observed (%d cases of the former known class, each with one stable output equal to the model's)", cl, n))
+		}
+	}
 
 	// ---- compare with the second process
 	if child == nil {
@@ -568,19 +613,22 @@ func c03InAlts(c Case, obs string) bool {
 // c03KnownExplains: do the differing observables fit the listed class?
 func c03KnownExplains(c Case, class string, set []string) bool {
 	switch class {
-	case "hash-duplicate-key", "key-string-collision":
+	case "merge-filter-key-collision":
 		for _, o := range set {
 			if !c03InAlts(c, o) {
 				return false
 			}
 		}
 		return true
-	case "toplevel-address", "nested-pointer":
+	case "nested-pointer":
 		m := c03Mask(set[0])
 		for _, o := range set {
 			if !strings.HasPrefix(o, "out:") || c03Mask(o) != m {
 				return false
 			}
+		}
+		if em, ok := c["expmask"].(string); ok && "out:"+unhex(em) != m {
+			return false // the model prints this value too, and differently
 		}
 		return strings.Contains(m, "0xADDR")
 	}
